@@ -7,7 +7,7 @@ CONSTANTS
   MaxCrashes = 99
   CrashPlans <- AnyTime
   Emit = FALSE
-INVARIANTS TypeOK AssignedOnce AtMostOnce FileOrBackupComplete CrashLosesOnlyInFlight NoLostJob RestartExact MutexInSync LockConsistent NoAbort
+INVARIANTS TypeOK AssignedOnce AtMostOnce AssignedOncePerRun AtMostOncePerRun FileOrBackupComplete CrashLosesOnlyInFlight NoLostJob RestartExact MutexInSync LockConsistent NoAbort
 CONSTRAINT Progress
 POSTCONDITION Report
 CHECK_DEADLOCK FALSE
